@@ -8,6 +8,8 @@ func dispatch16(cmd string, out *cq.Out, seed uint64, tier, arg string) bool {
 		cmdwireCmd(out, seed, tier)
 	case "server":
 		serverCmd(out, seed, tier)
+	case "failwrite":
+		failwriteCmd(out, seed, tier)
 	default:
 		return false
 	}
